@@ -6,7 +6,12 @@ A case is a history of API calls on a fresh track of n observations. After EVERY
 observes the listed names, every column (read through the name), len(obs.features) of every
 observation, X/Y/Z/T, the outcome (ok / exception kind) and the returned value, on the real code,
 on the Lean model of the code (dict + rows) and on the Lean specification (name -> column).
-The oracle (`spec`) keeps, independently of both, "what was last written under each name"."""
+The oracle (`spec`) keeps, independently of both, "what was last written under each name".
+
+The `carry` stream makes a track from another one (copy / extract / slice / + / extractSpanTime / loop(add=True) /
+addObs or insertObs of an Obs.copy()), runs a history on it and then on the source again; the whole session is also run
+on the Lean model of the heap of Obs objects (Model/FeaturesWorld.lean: tracks hold references, the derivations are
+modelled) and every track is compared wherever the implementation is observed."""
 import re, json, hashlib, math
 import numpy as np
 from engine import Prop, fbits, bitsf, close
@@ -781,6 +786,18 @@ class P(Prop):
         ("TracklibVerif.Props.C01", "TV.C01.agg_keeps_table", "the value-returning aggregates SUM AVG MIN MAX ARGMIN ARGMAX leave the whole table as it was, returning or raising"),
         ("TracklibVerif.Props.C01", "TV.C01.cell_read_agrees", "every read path returns the same values: for ANY name (feature called X, E, N, the empty string ..., coordinate, t, idx) getObsAnalyticalFeature(m, i) is the i-th element of getAnalyticalFeature(m) and changes nothing"),
         ("TracklibVerif.Props.C01", "TV.C01.carried_table_aligned", "a track handed a table with distinct names and full columns (copy, extract, slice, +) is aligned and carries exactly that table: all theorems apply to histories starting from it"),
+        ("TracklibVerif.Props.C01World", "TV.C01.heap_step_refines", "on a heap of Obs objects (tracks hold references; every loop of the API acts on the object found at each position, one after the other): for a track of pairwise distinct objects showing an aligned table every API call does exactly what it does on that table (same outcome, the track shows the resulting table), the track stays such a track, no object is added or dropped and every object outside the track is left as it was"),
+        ("TracklibVerif.Props.C01World", "TV.C01.heap_step_spec", "the same against the name -> column specification: all theorems above hold for tracks living on a heap"),
+        ("TracklibVerif.Props.C01World", "TV.C01.heap_history_refines", "along every finite history on such a track outcomes and shown tables are those of the history on the one-track table; every state is again such a track"),
+        ("TracklibVerif.Props.C01World", "TV.C01.heap_history_frame", "a history of API calls touches no object outside the track it is addressed to"),
+        ("TracklibVerif.Props.C01World", "TV.C01.other_track_unchanged", "a track that shares no object with the track a history is run on shows exactly the same table afterwards (names, every column and row, coordinates, timestamps), whatever the calls and their outcomes"),
+        ("TracklibVerif.Props.C01World", "TV.C01.copies_are_fresh", "[o.copy() for o in positions of a track] (Obs.copy() = deepcopy: extractSpanTime) makes new objects, one per position: the track made of them has pairwise distinct objects none of which belongs to an existing track, shows the rows / coordinates copied under the transmitted dict, is aligned; old objects untouched"),
+        ("TracklibVerif.Props.C01World", "TV.C01.span_track_independent", "the piece (extractSpanTime) and its parent are independent: any history on the piece leaves the table the parent shows as it was, any history on the parent leaves the table the piece shows as it was"),
+        ("TracklibVerif.Props.C01World", "TV.C01.ring_track_good", "t.loop(add=True) / t.addObs(t[i].copy()) / t.insertObs(t[i].copy(), p): the track is again a track of pairwise distinct objects, one observation longer, aligned, showing the old table with row i repeated at p - every theorem about histories applies to the ring"),
+        ("TracklibVerif.Props.C01World", "TV.C01.derive_span_is_copies", "the model of extractSpanTime (Sys.derive) builds its new track by copyEach over positions of the source with the source's dict (ties the driver's derivation to copies_are_fresh / span_track_independent)"),
+        ("TracklibVerif.Props.C01World", "TV.C01.derive_addCopy_is_insert", "the model of addObs / insertObs of an Obs.copy() inserts the object allocCopy made with pyInsert (ties the driver's derivation to ring_track_good)"),
+        ("TracklibVerif.Props.C01World", "TV.C01.derive_loopAdd_is_addCopy", "loop(add=True) is addObs(self[0].copy())"),
+        ("TracklibVerif.Props.C01World", "TV.C01.derive_copy_is_copies", "Track.copy() (deepcopy with its memo) of a track of pairwise distinct objects makes one new object per position, like the copies above"),
     ]
     partial = []
     open_statements = [
@@ -795,8 +812,12 @@ class P(Prop):
         "'unsupported' and the rest of that history is not compared)",
         "the list forms of operate (lists of input / output names) are not modelled: for the non-void and scalar families they raise TypeError "
         "(`range(output)` on a list) before touching the table",
-        "sharing of Obs objects between a track and the tracks derived from it by extract / slice / + is outside the model (one track = one table): "
-        "the oracle observes it (finding derived-track-shares-observations)",
+        "tracks that SHARE Obs objects (extract / slice / + hand over the objects themselves; one object referenced at two positions of a track): the heap "
+        "model (Model/FeaturesWorld.lean) runs them and the correspondence compares every track of the session, but the theorems need pairwise distinct "
+        "objects within the track and, for 'the other track is unchanged', disjoint tracks - for shared objects alignment does fail (finding "
+        "derived-track-shares-observations; Props/C01World.lean shows the failing states as examples)",
+        "the copying derivations are proved at the level of the object references (Obs.copy() = a new object equal to the old one); that copy.deepcopy "
+        "really copies the features list is what the seeded change C01-7 broke: it is checked by the correspondence with the heap model and by the oracle, not proved",
     ]
     modelled = ("Track.createAnalyticalFeature / updateAnalyticalFeature / removeAnalyticalFeature / getAnalyticalFeature / "
                 "getObsAnalyticalFeature / setObsAnalyticalFeature / hasAnalyticalFeature / addAnalyticalFeature / __setitem__ / "
@@ -808,6 +829,8 @@ class P(Prop):
                 "ScalarRevDivider, Inverser, ShiftCircular, ShiftCircularRev, Apply and Rectifier / Sqrt / Diode / Sign / Exp / Cos / Sin / Tan, Log, "
                 "Sum, Averager, Min, Max, Argmin, Argmax, Reverser of core/operators.py; cinematics.computeAbsCurv, estimate_speed "
                 "(analytics.ds, speed), segmentation.segmentation (one feature, one threshold); the table a track receives from copy / extract / slice / +; "
+                "on a heap of Obs objects (Model/FeaturesWorld.lean: a track = references + dict, every primitive of the API as a loop over the objects found at the positions): "
+                "Track.copy, extract, __getitem__(slice), __add__, extractSpanTime, loop(add=True), addObs / insertObs of Obs.copy(), Obs.copy; "
                 "table effect only (values opaque) of Convolution, Filter_FFT, Square, Inverter, ShiftCircular (object form) and of the non-void "
                 "Min, Argmax, Zeros, Median, Aggregate, Equal")
     trusted = ["operators with opaque values (CONVOLUTION, FILTER_FFT - numpy results -, SQUARE, INVERTER, SHIFT_CIRCULAR object form): the model is handed the list the "
@@ -827,7 +850,8 @@ class P(Prop):
             "capitals and near-misses of the reserved names, prefixes, digits, '#', non-ASCII, blanks, operator and separator characters, built-in names ds abs_curv speed, the "
             "empty string) used as user features through every write path; 'rich': operator objects of every family (binary / scalar / unary void incl. those whose arithmetic "
             "raises mid-way, value-returning aggregates, computeAbsCurv, estimate_speed, segmentation) and expressions with / ^ % < > >> << and function calls; 'carry': a track built "
-            "by copy / extract / slice / + from a track with features, then a history on it, the source tracks observed before and after; 'short': a list initialiser shorter than the track in the middle of a history (refused / partial overwrite), also sprinkled in every stream; "
+            "by copy / extract / slice / + / extractSpanTime (bounds in either order or given as a track) / loop(add=True) / addObs or insertObs of an Obs.copy() (t[i], getObs, getFirstObs, getLastObs) "
+            "from a track with 0..5 earlier calls, then a history on it, then (copy, extractSpanTime) a history on the source again, all tracks observed before and after and the whole session replayed on the heap model; 'short': a list initialiser shorter than the track in the middle of a history (refused / partial overwrite), also sprinkled in every stream; "
             "empty track. A call that raises although all its operands exist and it is well formed is a failure; "
             "non-trivial = the history deletes (remove, '#DELETE' or re-assignment by an expression) a column that is not the last one while other features are listed")
 
